@@ -63,7 +63,9 @@ def check_property(prop, tier, repo, record=False, verbose=False):
     for n, o in sorted(obs.items()):
         st = o.status
         (refuted if st == "refuted" else undecided if st == "undecided" else discharged).append(o)
-    ast_bad = [a for a in rep["ast"] if not a["ok"]]
+    soft = rep["world"].soft_ast
+    ast_bad = [a for a in rep["ast"] if not a["ok"] and a["name"] not in soft]
+    ast_soft_bad = [a for a in rep["ast"] if not a["ok"] and a["name"] in soft]
     n_obl = len(obs) + len(rep["ast"])
     # --- vacuity guards --------------------------------------------------------------
     problems = []
@@ -256,7 +258,9 @@ def check_property(prop, tier, repo, record=False, verbose=False):
         for p in problems:
             print("CHECKER-ERROR property=%s %s" % (prop, p))
         return 3
-    if undecided or rep["undecided"] or missing:
+    if undecided or rep["undecided"] or missing or ast_soft_bad:
+        for a in ast_soft_bad:
+            print("UNDECIDED property=%s obligation=ast:%s reason=shape-changed (%s)" % (prop, a["name"], "; ".join(a["detail"]) if isinstance(a["detail"], list) else a["detail"]))
         for o in undecided:
             if not isinstance(o, dict):
                 print("UNDECIDED property=%s obligation=%s reason=solver-unknown" % (prop, o.name))
